@@ -102,7 +102,8 @@ type world struct {
 	paidOut   map[string]bool        // entries already paid out (never twice)
 	fusedBase map[types.Address]*big.Int
 	fusedInit bool
-	dead      bool // a receive panicked / failed internally: the inbox is wedged, history abandoned
+	surplus   map[string]*big.Int // balance - liabilities per contract and token at the last check (locks suite)
+	dead      bool                // a receive panicked / failed internally: the inbox is wedged, history abandoned
 	pending   int
 }
 
